@@ -359,9 +359,9 @@ def clash_items():
 # literal kind x declared type x position: defaults, example values, route attributes, annotation arguments, type parameters
 
 MATRIX_TYPES = ['Int32', 'UInt64', 'Int64(min_value=0)', 'Float32', 'Float64', 'Float64(min_value=0, max_value=1)', 'String', 'String(min_length=2, max_length=3)',
-                'String(pattern="[a-c]+")', 'Bytes', 'Boolean', 'Timestamp("%Y")', 'List(Int32)', 'List(String, min_items=1, max_items=2)', 'Map(String, Int32)',
+                'String(pattern="[a-c]+")', 'Bytes', 'Boolean', 'Timestamp("%Y")', 'Timestamp("%Y %Y")', 'Timestamp("%Q")', 'Timestamp("%")', 'Timestamp("")', 'Timestamp("%%")', 'List(Int32)', 'List(String, min_items=1, max_items=2)', 'Map(String, Int32)',
                 'Map(String(min_length=2), List(Int32))', 'Map(String(pattern="[a-c]+"), Int32)', 'Map(String(max_length=1), Int32?)', 'Map(String, Map(String(min_length=2), Int32))', 'AkeyMap', 'Ms', 'Mu', 'Mtree', 'Int32?', 'Ms?', 'List(Ms)', 'List(Int32?)', 'Aint', 'Anull', 'Alist', 'Astruct', 'AnullS', 'Void']
-MATRIX_LITERALS = ['0', '-1', '5', '1' + '0' * 400, '-1' + '0' * 400, '1' * 4300, '1' * 4301, '-' + '1' * 4301, '1' * 5000 + '.5', '1e' + '9' * 5000, '1.5', '-0.0', '1e400', '1e-400', '2e10', '""', '"x"', '"ab"', '"YWJj"', '"2000"', '"not a date"',
+MATRIX_LITERALS = ['0', '-1', '5', '1' + '0' * 400, '-1' + '0' * 400, '1' * 4300, '1' * 4301, '-' + '1' * 4301, '1' * 5000 + '.5', '1e' + '9' * 5000, '1.5', '-0.0', '1e400', '1e-400', '2e10', '""', '"x"', '"ab"', '"YWJj"', '"2000"', '"2000 2000"', '"%"', '"not a date"',
                    'true', 'false', 'null', '[]', '[1]', '["a"]', '[[1]]', '[null]', '[1, "a"]', '{}', '{"ab": 1}', '{"a": 1}', '{"ab": [1]}', '{"a": [1]}', '{"zz": 1}', '{"k": {"a": 1}}', '{"k": {"ab": 1}}', '{1: 2}', '{"ab": null}',
                    'mv', 'mw', 'ms', 'mn', 'mu', 'nope', 'default', 'Ms', 'Int32']
 MATRIX_PREAMBLE = ('namespace mx\n\nstruct Ms\n    a Int32\n    b String = "d"\n\n    example default\n        a = 1\n\nunion Mu\n    mv\n    mw Int32\n    ms Ms\n    mn Ms?\n    mu Mu2\n\n    example default\n        mw = 3\n\n'
@@ -427,10 +427,12 @@ def literal_matrix_items(tier):
 # ---------------------------------------------------------------------------
 # namespace qualifiers: every kind of reference site x every kind of qualifier x {name that exists there, annotation type, unknown name}
 
-QUAL_OTHER = 'namespace qo\n\nstruct T\n    x Int32\n\nunion Uq\n    a\n\nalias Al = T\n\nannotation_type At\n    p Int32\n\nannotation An = At(p=1)\n\nroute rq(T, Void, Void)\n'
+QUAL_OTHER = 'namespace qo\n\nstruct T\n    x Int32\n\nstruct qn\n    "a type named like the namespace that imports this one"\n    x Int32\n\nunion Uq\n    a\n\nalias Al = T\n\nannotation_type At\n    p Int32\n\nannotation An = At(p=1)\n\nroute rq(T, Void, Void)\n'
+# namespaces named like definitions of the referring namespace (a struct, an alias, an annotation, a route, a built-in type)
+QUAL_NAMESAKES = [('%s.stone' % n.lower(), 'namespace %s\n\nstruct Lt\n    x Int32\n' % n) for n in ('Loc', 'LocAl', 'An', 'rloc', 'Int32')]
 QUAL_THIRD = 'namespace qt\n\nstruct T\n    x Int32\n\nannotation_type At\n    p Int32\n'
-QUALIFIERS = ['qn', 'qo', 'qt', 'zz', 'Loc', 'LocAl', 'stone_cfg', 'An', 'rloc']
-QUAL_NAMES = ['T', 'Uq', 'Al', 'At', 'An', 'rq', 'Loc', 'Nope']
+QUALIFIERS = ['', 'qn', 'qo', 'qt', 'zz', 'Loc', 'LocAl', 'stone_cfg', 'An', 'rloc', 'Int32']
+QUAL_NAMES = ['T', 'Uq', 'Al', 'At', 'An', 'rq', 'Loc', 'Noted', 'qn', 'Lt', 'Nope']
 QUAL_SITES = [('field', 'struct H\n    f %s\n'), ('field-nullable', 'struct H\n    f %s?\n'), ('list-item', 'struct H\n    f List(%s)\n'), ('parent', 'struct H extends %s\n    f Int32\n'),
               ('union-parent', 'union H extends %s\n    hh\n'), ('alias', 'alias H = %s\n'), ('route-arg', 'route h(%s, Void, Void)\n'), ('route-error', 'route h(Void, Void, %s)\n'),
               ('deprecated-by', 'route h(Void, Void, Void) deprecated by %s\n'), ('annotation-type', 'annotation Hh = %s(p=1)\n'), ('annotation-type-noargs', 'annotation Hh = %s()\n'),
@@ -439,16 +441,18 @@ QUAL_SITES = [('field', 'struct H\n    f %s\n'), ('field-nullable', 'struct H\n 
 
 
 def qualifier_items():
-    local = 'struct Loc\n    y Int32\n\nalias LocAl = Loc\n\nannotation_type At\n    p Int32\n\nannotation An = At(p=2)\n\nroute rloc(Void, Void, Void)\n\n'
+    local = ('struct Loc\n    y Int32\n\nstruct Noted\n    "a struct with a field that carries a custom annotation"\n    z Int32\n        @An\n\nalias LocAl = Loc\n\n'
+             'annotation_type At\n    p Int32\n\nannotation An = At(p=2)\n\nroute rloc(Void, Void, Void)\n\n')
     for site, pat in QUAL_SITES:
         for q in QUALIFIERS:
             for name in QUAL_NAMES:
-                ref = '%s.%s' % (q, name) if site != 'import' else q
-                if site == 'import' and name != 'T':
+                ref = ('%s.%s' % (q, name) if q else name) if site != 'import' else q
+                if site == 'import' and (name != 'T' or not q):
                     continue
                 for imports in ('import qo\n\n', ''):
                     text = 'namespace qn\n\n' + imports + local + pat % ref
-                    yield 'qualifier:%s:%s:%s' % (site, ref, 'imported' if imports else 'not-imported'), [('qo.stone', QUAL_OTHER), ('qt.stone', QUAL_THIRD), ('qn.stone', text)]
+                    yield ('qualifier:%s:%s:%s' % (site, ref, 'imported' if imports else 'not-imported'),
+                           [('qo.stone', QUAL_OTHER), ('qt.stone', QUAL_THIRD)] + QUAL_NAMESAKES + [('qn.stone', text)])
 
 
 POOL_LABELS = None
